@@ -57,6 +57,14 @@ func c11Cells(full bool) []lat {
 			}
 		}
 	}
+	// the documented roll-out step: keys installed, outgoing traffic sealed, incoming plaintext still accepted
+	for _, enc := range []string{"v1", "v0"} {
+		for _, lb := range []string{"", "L"} {
+			for _, pm := range []uint8{4, 5} {
+				out = append(out, lat{Enc: enc, KeyLen: 16, NoVerIn: true, Label: lb, PeerPMax: pm, IPNames: true, UDPBuf: 512})
+			}
+		}
+	}
 	// the first key installed after the node was created (nothing about the budget may be cached at creation)
 	for _, enc := range []string{"v1", "v0"} {
 		for _, lb := range []string{"", "L"} {
